@@ -107,14 +107,18 @@ def case_array(ctx, rng):
     ctx.count("arrayop", op)
     x = None
     if op == "squeeze":
-        nd = rng.randint(1, 4)
+        nd = rng.randint(1, 4) if rng.random() < 0.8 else rng.randint(7, 11)
+        if nd > 4:
+            ctx.count("feature", "rank>=7")
         idx = []
+        nbig = 0
         for _ in range(nd):
-            if rng.random() < 0.5:
+            if rng.random() < 0.5 or (nd > 4 and nbig >= 3):
                 c = R.identity(sym) if rng.random() < 0.85 else rng.choice(gen.POOL[sym])
                 idx.append(sr.BlockIndex({c: 1}, dual=rng.random() < 0.5))
             else:
-                idx.append(gen.rand_index(sr, rng, sym))
+                nbig += 1
+                idx.append(gen.rand_index(sr, rng, sym, maxd=2 if nd > 4 else 3, maxc=2 if nd > 4 else 3))
         x = gen.make_array(sr, rng, sym, idx, values=vals)
     else:
         x = gen.rand_array(sr, rng, sym, maxnd=4 if op in ("transpose", "dagger") else 3, values=vals, allow0=op in ("scalar", "neg", "sum", "norm"))
